@@ -4,7 +4,7 @@
    keep = true is Statement.clone as it is in /repo (attrs/assigns copied, commit 2b43abc) and is what
    the correspondence checker evaluates ([step_repo]); keep = false is the tree before that fix.
    [wf t] = keys strictly increasing (a table as a primary-key index stores it). *)
-From Verif Require Import Base C16_Model C16_Spec C16_Proofs C16_Proofs2.
+From Verif Require Import Base C16_Model C16_Spec C16_Proofs C16_Proofs2 C16_Proofs3.
 Open Scope Z_scope.
 
 (* ---- Save ------------------------------------------------------------------------------------ *)
@@ -127,6 +127,15 @@ Theorem c16_history_wf : forall keep hs t,
   Forall (fun s : hstep => chain_keeps_key (snd (fst s))) hs -> wf t -> wf (run_history keep t hs).
 Proof. exact history_wf. Qed.
 Print Assumptions c16_history_wf.
+
+(* ---- the specification the checker evaluates on gorm's outputs holds of the model's own output ---- *)
+(* for every well-formed table, clock value, chain and finisher of the domain (type-correct values,
+   key-value form alone, Attrs/Assign on data columns, conditions on key/data columns with positive
+   keys; [in_domain] and [sortedb] are evaluated on every executed case by C16_Check) *)
+Theorem c16_model_meets_spec : forall t now ch f, wf t -> in_domain ch f = true ->
+  spec_step t now ch f (obs_of_result (step_repo t now ch f)) = true.
+Proof. exact model_meets_spec. Qed.
+Print Assumptions c16_model_meets_spec.
 
 (* non-vacuity of the hypotheses *)
 Example c16_instance :
